@@ -72,6 +72,9 @@ impl BigNumber {
     }
 
     pub fn rand_range(&self) -> ClResult<BigNumber> {
+        if !self.bn.is_positive() {
+            return Err(err_msg!("Invalid range"));
+        }
         let mut rng = OsRng::default();
         let res = rng.gen_bigint_range(&BigInt::zero(), &self.bn);
         match res.to_bigint() {
